@@ -143,6 +143,9 @@ class VGen:
             return ["complex", "0x1.0p+0", "-0x1.0p+1"]
         if c == 7:
             return self.r.choice([["myint", 5], ["mystr", "s"]])
+        if c == 8 and self.r.random() < 0.3:
+            self.ident()
+            return ["userobj", "FalsyState", [["flag", self.r.choice([["bool", False], ["int", 0], ["tuple", []], ["dict", []], ["str", ""], ["int", 3], ["bool", True]])]]]
         if c == 8:
             self.ident()
             return ["userobj", self.r.choice(["Plain", "WithState", "Slotted", "ReduceCtor"]), [["a", self.scalar()], ["b", self.scalar()]][: self.r.randint(0, 2)]]
